@@ -199,6 +199,13 @@ def mode_job(job):
             removed = not os.path.exists(fname)
         except FileExistsError:
             removed = False
+            if out.get("refusalKeeps") and mode != "read":
+                # the refusal must not have closed the file (which would also lower the writing flag of an incomplete file)
+                try:
+                    pt.set_mpo_tensor(0, np.eye(4).reshape(1, 1, 4, 4))
+                    pt.close()
+                except Exception as ex:  # pylint: disable=broad-except
+                    res.append({"what": "refused-remove-closed-the-file", "detail": "%s: %s" % (type(ex).__name__, str(ex)[:80])})
         except Exception as ex:  # pylint: disable=broad-except
             removed = "exception %s" % type(ex).__name__
         if removed != out["removable"]:
